@@ -208,6 +208,68 @@ def tlc_cases(chk, name, consts, timeout):
     return [json.loads(json.loads(l)[5:]) for l in r.out.splitlines() if l.startswith('"CASE ')]
 
 
+def wide_times(chk, exe, rng, n):
+    """publication times of 32..63 bits (beyond TLC's integers): CalWide.tla works on bit sequences; TLC proves that it agrees with HashChain.tla's
+    integer definitions on every small number, evaluates it on the wide pairs and exports shape, verdicts for every single flipped link, a missing and
+    a surplus link; libksi must derive the same times (times of 2^63 and above do not fit the SDK's time type and are left out)"""
+    def bits(v):
+        return "<<" + ", ".join(c for c in bin(v)[2:]) + ">>" if v else "<<>>"
+    def posset(v):
+        return "{" + ", ".join(str(i) for i in range(v.bit_length()) if v >> i & 1) + "}"
+    pairs = []
+    edge = [1 << 31, (1 << 31) - 1, (1 << 31) + 1, (1 << 32) - 1, 1 << 32, (1 << 32) + 1, (1 << 33) - 1, 1 << 40, (1 << 62), (1 << 63) - 1, (1 << 63) - 2, 0x5555555555555555, 0x2aaaaaaaaaaaaaaa]
+    for p in edge:
+        for t in {0, 1, p, p - 1, p >> 1, (p >> 1) + 1, 1 << 31, (1 << 31) - 1, rng.randrange(p + 1)}:
+            if 0 <= t <= p:
+                pairs.append((p, t))
+    for _ in range(n):
+        p = rng.randrange(1 << 31, 1 << rng.choice([32, 33, 40, 48, 63]))
+        pairs.append((p, rng.randrange(p + 1)))
+    d = vlib.scratch("c03w")
+    for fn in ("HashChain.tla", "CalWide.tla"):
+        os.symlink(os.path.join(vlib.SPEC, fn), os.path.join(d, fn))
+    with open(os.path.join(d, "MC_CalWide.tla"), "w") as f:
+        f.write("---- MODULE MC_CalWide ----\nEXTENDS CalWide, Json, TLC\nVARIABLE c\n"
+                "Wide == {%s}\nInit == c \\in {[k |-> \"small\", pub |-> p] : p \\in 1..200} \\cup {[k |-> \"wide\", n |-> w[1], pub |-> w[2], t |-> w[3]] : w \\in Wide}\n"
+                "Next == UNCHANGED c\nSpec == Init /\\ [][Next]_c\n"
+                "Flip(s, i) == [j \\in DOMAIN s |-> IF j = i THEN ~s[j] ELSE s[j]]\n"
+                "Lst(r) == [ok |-> r.ok, t |-> r.t]\n"
+                "Shp == RefShapeW(c.pub, c.t)\n"
+                "Thm == IF c.k = \"small\" THEN SameAsIntegers(c.pub) ELSE InvertsW(c.pub, c.t)\n"
+                "Emit == c.k = \"wide\" => PrintT(\"CASE \" \\o ToJson([n |-> c.n, shape |-> Shp, flips |-> [i \\in DOMAIN Shp |-> Lst(CalTimeW(Flip(Shp, i), c.pub))], "
+                "short |-> Lst(CalTimeW(Tail(Shp), c.pub)), long |-> Lst(CalTimeW(<<TRUE>> \\o Shp, c.pub))]))\n====\n"
+                % ", ".join("<<%d, %s, %s>>" % (i, bits(p), posset(t)) for i, (p, t) in enumerate(pairs)))
+    cfg = os.path.join(d, "w.cfg")
+    with open(cfg, "w") as f:
+        f.write("SPECIFICATION Spec\nINVARIANTS\n  Thm\n  Emit\n")
+    r = vlib.run_tlc("MC_CalWide.tla", cfg, timeout=900, cwd=d)
+    if r.violation:
+        raise vlib.CheckError("CalWide.tla: the bit-sequence formulation disagrees with HashChain.tla or does not invert the reference shape:\n" + r.out[-2000:])
+    vlib.tlc_must_pass(r, "wide calendar times"); chk.tlc(r, "cal_wide")
+    rows = [json.loads(json.loads(l)[5:]) for l in r.out.splitlines() if l.startswith('"CASE ')]
+    val = lambda x: sum(1 << k for k in x["t"]) if x["ok"] else -1
+    lr = lambda b: "".join("L" if x else "R" for x in b) or "-"
+    lines, exps = [], []
+    for row in rows:
+        p, t = pairs[row["n"]]; sh = row["shape"]
+        lines.append("TIME1 %d %s" % (p, lr(sh))); exps.append(t)
+        for i in range(len(sh)):
+            fl = list(sh); fl[i] = not fl[i]
+            lines.append("TIME1 %d %s" % (p, lr(fl))); exps.append(val(row["flips"][i]))
+        lines.append("TIME1 %d %s" % (p, lr(sh[1:]))); exps.append(val(row["short"]))
+        lines.append("TIME1 %d %s" % (p, lr([True] + sh))); exps.append(val(row["long"]))
+    rc, out, err = vlib.run_driver(exe, input="\n".join(lines) + "\n")
+    outs = out.splitlines()
+    if rc != 0 or len(outs) != len(lines):
+        chk.violation("crash:wide-times", "driver died rc=%s %s" % (rc, err[-1000:]), {})
+        return 0
+    for line, e, o in zip(lines, exps, outs):
+        g = int(o.split()[1])
+        if g != e:
+            chk.violation("time1:wide:%s" % ("bits%d" % int(line.split()[1]).bit_length()), "calendar time of a wide publication time: %s -> CalWide.tla %d, libksi %d" % (line, e, g), dict(line=line, expected=e, got=g))
+    return len(lines)
+
+
 def random_times(chk, exe, rng, n):
     """random 31-bit publication times: TLC evaluates CalTime on the reference shape and on perturbed shapes"""
     pubs = []
@@ -284,6 +346,7 @@ def run(chk, tier, seed):
                 chk.sample(dict(kind="TLC case replayed", case=d["c"], spec_value=(d["x"] if d["c"]["t"] != "time" else "vector of %d times" % len(d["x"]))))
         chk.add(case_kinds=kinds, calendar_table="all shapes of length <= %d x all publication times <= %d" % (consts["CalLen"], consts["CalPub"]))
     nr = random_times(chk, exe, rng, 40 if tier == "quick" else 400)
+    nr += wide_times(chk, exe, rng, 60 if tier == "quick" else 600)
     chk.add(evaluations=total + nr, distinct_nontrivial=nontriv, exhaustive=True,
             rule="TLC-enumerated case tables (aggregation chains: every link sequence up to MaxLen over side x sibling kind x 8 boundary corrections "
                  "x 4 start levels, long uniform chains, memoised object re-aggregation, chain lists, calendar chains with algorithm switching, "
